@@ -743,6 +743,26 @@ def graph_fact(chk, fi: FuncInfo) -> Optional[str]:
 # enumeration (all_dot_brackets)
 
 
+def _group_sizes(regions: Sequence[Region]) -> List[int]:
+    adj = adjacency(regions)
+    seen: Set[int] = set()
+    sizes = []
+    for v in sorted(adj):
+        if v in seen:
+            continue
+        todo, k = [v], 0
+        seen.add(v)
+        while todo:
+            x = todo.pop()
+            k += 1
+            for y in adj[x]:
+                if y not in seen:
+                    seen.add(y)
+                    todo.append(y)
+        sizes.append(k)
+    return sorted(sizes)
+
+
 def enumeration_fact(chk) -> Optional[str]:
     repo = chk.repo
     fi = repo.func(MOD, f"{CLS}.all_dot_brackets")
@@ -752,6 +772,9 @@ def enumeration_fact(chk) -> Optional[str]:
     failing_case: Optional[List[Region]] = None
     n_cases = n_knotted = 0
     cases = sorted_cases(4) + [[embed(m)[i] for i in p] for m in matchings(3) for p in ((2, 1, 0), (1, 2, 0))]
+    # five stems in two independent groups of 3 and 2: the smallest inputs in which the stems of one group are not contiguous
+    # among the vertices of the conflict graph (a group nested in / interleaved with another one)
+    cases += [embed(m) for m in matchings(5) if _group_sizes(embed(m)) == [2, 3]]
     try:
         for regs in cases:
             rec = Recorder()
@@ -834,7 +857,7 @@ def enumeration_fact(chk) -> Optional[str]:
     for key, (site, msg, want, got) in problems.items():
         chk.violation("enumeration-fact", site, msg + hint, K(fi, f"enumeration-{key}"), expected=want, found=got)
     if not problems:
-        chk.ok("enumeration-fact", fi.where, f"evaluated on {n_cases} stem lists (every order type of <= 4 arcs, {n_knotted} knotted; all in one process, so module-level state persists from case to case): the list is exactly the set of greedy-stable assignments, each once, rendered by the fill; pseudoknot-free -> [FCFS]")
+        chk.ok("enumeration-fact", fi.where, f"evaluated on {n_cases} stem lists (every order type of <= 4 arcs and of 5 arcs in two groups of 3 + 2, {n_knotted} knotted; all in one process, so module-level state persists from case to case): the list is exactly the set of greedy-stable assignments, each once, rendered by the fill; pseudoknot-free -> [FCFS]")
     return None
 
 
@@ -846,7 +869,7 @@ def _structural_hint(chk, fi: FuncInfo) -> str:
         from sa.report import Check
 
         shadow = Check(chk.pid, chk.tier, chk.repo)
-        shadow.robust |= set(c16.ROBUST) | {"greedy-record", "product-dedup", "product-merge", "product-default", "greedy-init", "components-start", "components-visited", "components-vertices"}
+        shadow.robust |= set(c16.ROBUST)  # only rules that state a positive finding; a pinned form that is merely absent says nothing
         for f in (c16.check_components, c16.check_permutation_greedy, c16.check_product):
             try:
                 f(shadow, fi)
@@ -989,6 +1012,7 @@ def from_dotbracket_fact(chk, rule: str = "from-db-fact") -> Optional[str]:
         ("", []),
         ("a", []),
         ("AcgU-nN", [(0, 6), (1, 4)]),
+        ("?IpX7*.", [(0, 5), (2, 3)]),
         ("gGcC", [(1, 2), (0, 3)]),
         ("ACGUACGUAC", [(0, 9), (2, 5), (3, 4), (6, 8)]),
     ]
@@ -1028,7 +1052,7 @@ def from_dotbracket_fact(chk, rule: str = "from-db-fact") -> Optional[str]:
     if problem:
         chk.violation(rule, problem[0], problem[1], K(fi, "entries"), expected=problem[2], found=problem[3])
     else:
-        chk.ok(rule, fi.where, f"evaluated on {len(cases)} notations (upper/lower-case and other letters, nested and crossing pairs): entry t is (t+1, sequence[t] unchanged, partner+1 or 0)")
+        chk.ok(rule, fi.where, f"evaluated on {len(cases)} notations (upper/lower-case letters, '?', digits and other symbols, nested and crossing pairs): entry t is (t+1, sequence[t] unchanged, partner+1 or 0)")
     return None
 
 
@@ -1174,7 +1198,7 @@ def pseudoknots_fact(chk) -> Optional[str]:
     it.override_ctor("Entry", E)
     it.override_ctor(CLS, Built)
     n_types = len(REF_OPEN)
-    letters = "acgu" + "ACGU" + "nN-" + "acgu" * 20
+    letters = "acgu" + "ACGU" + "nN-" + "?IPx7*" + "acgu" * 20  # also '?' (the library's gap marker) and codes outside the IUPAC set
     structure = "(" + "." + REF_OPEN[1:] + ".." + REF_CLOSE[1:][::-1] + "(.)" + ")"
     seq = (letters * 3)[: len(structure)]
     problems: Dict[str, Tuple[str, str, Any, Any]] = {}
@@ -2110,13 +2134,16 @@ def text_forms_fact(chk) -> Optional[str]:
             ("\n  1 A 3  \n\n2\tC\t0\n3 U 1", [(1, "A", 3), (2, "C", 0), (3, "U", 1)]),
             ("1 A 0\nthis line has four fields\n2 G\n3 U 0\n", [(1, "A", 0), (3, "U", 0)]),
             ("12 g 104\n13 n 0\n104 c 12\n", [(12, "g", 104), (13, "n", 0), (104, "c", 12)]),
+            # the residue column is a free token: the library's own '?' for a missing residue, gap symbols, digits, multi-letter codes
+            ("1 ? 6\n2 - 0\n3 . 0\n4 7 0\n5 PSU 0\n6 * 1\n7 X 0\n", [(1, "?", 6), (2, "-", 0), (3, ".", 0), (4, "7", 0), (5, "PSU", 0), (6, "*", 1), (7, "X", 0)]),
             ("", []),
         ]
         for text, want in texts:
             kind, val = attempt(lambda: it.call_member(it.instance(CLS), "from_string", text))
             got = [tuple(e) for e in val.entries] if kind == "value" and isinstance(val, Built) else None
             if kind != "value" or got != want:
-                problems.setdefault("parse", ("bpseq-text", fs.where, f"BpSeq.from_string({text!r}) gives {got if kind == 'value' else str(val)}, not one Entry(int(index), letter, int(pair)) per three-field line in order", want, got))
+                lost = [w for w in want if got is not None and w not in got]
+                problems.setdefault("parse", ("bpseq-text", fs.where, f"BpSeq.from_string({text!r}) gives {got if kind == 'value' else str(val)}, not one Entry(int(index), residue token, int(pair)) per three-field line in order" + (f": the entry {lost[0]} is lost (a line `index token pair` is an entry whatever the residue token is - '?' is what the library itself writes for a missing residue)" if lost else ""), want, got))
         # __str__ and sequence
         ents = [E(1, "A", 3), E(2, "c", 0), E(3, "U", 1), E(14, "n", 0)]
         recv = bpseq(it, ents)
